@@ -360,7 +360,7 @@ def mc(jobs, bounds_q, bounds_t, extra=None, **kw):
 
 
 B_STATE_Q = "all seeds x 3 kernels x 4 deletion modes: full alphabet depth 2 + reduced alphabet depth 3 (small seeds), depth 1 + 2 (medium), depth 1 (large); ASan+UBSan pass depth 1"
-B_STATE_T = "full alphabet depth 3 + reduced depth 4 (small), 2 + 3 (medium), 1 + 2 (large); ASan+UBSan pass depth 1-2"
+B_STATE_T = "full alphabet depth 2 + reduced alphabet depth 4 (small seeds), 1 + 3 (medium), 1 + 2 (large), and separately the full alphabet to depth 3 (small) / 2 (medium); seeds listed as heavy for the property keep the quick bounds; ASan+UBSan pass depth 1-2"
 
 PROPS = {
     "C01": mc(jobs_state("C01"), B_STATE_Q, B_STATE_T),
